@@ -33,6 +33,7 @@ SHAPES = [
     ("single", [[0, 0], [0, 0]], False, Q, dict(params=dict(cs=False), budget=600, shard=5)),
     ("sub", [[1, 0], [0, 0]], False, Q, dict(params=dict(k=2), budget=600, shard=5)),
     ("sub", [[1, 1]], False, Q, dict(params=dict(k=1, built="merge"), budget=600)),
+    ("sub", [[1, 0]], False, Q, dict(params=dict(k=1, twice=True), budget=600)),
     ("chain", [[0, 0]], False, T, dict(params=dict(second=[[0, 0]], third=[[0, 0]], cs=True), budget=2400, shard=8)),
     ("chain", [[1, 0], [0, 0]], False, T, dict(params=dict(second=[[1, 0], [0, 0]], cs=True), budget=3000, shard=9)),
     ("chain", [[0, 0], [0, 0]], False, T, dict(params=dict(second=[[0, 0]], cs=False), budget=3000, shard=9)),
@@ -136,6 +137,13 @@ def build(job):
         P = [eng.var(f"s{i}") for i in range(params["k"])]
         before = snapshot_records(parent)
         kind = eng.choice("subset_as", ["list", "iter"])       # get_subconverter takes any Iterable[str]
+        if params.get("twice"):
+            # an earlier sub-converter over the same subset was taken and then extended by a merge of its own
+            first = parent.get_subconverter(list(P))
+            if first.records:
+                ns = eng.var("newsyn")
+                eng.assume(And([_s(ns) != _s(x) for r in recs for x in r.all_p]))
+                first.add_prefix(ns, first.records[0].uri_prefix, merge=True)
         subc = parent.get_subconverter(iter(list(P)) if kind == "iter" else list(P))
         eng.expect(records_eq(before, snapshot_records(parent)), "get_subconverter changed its parent")
         ident = eng.var("ident")
